@@ -40,6 +40,17 @@ inductive JPc
   | failing (e : JErr)      -- the select took the error reply / the context; clean-up not done yet
   deriving DecidableEq, Repr, Inhabited
 
+/-- a child element of a message stanza, as far as the invitation handler cares -/
+inductive Child
+  | body | subject | legacyX          -- <body/>, <subject/>, <x xmlns='jabber:x:conference'/>
+  | unrelated                         -- any other payload
+  | mucInvite                         -- <x xmlns='…muc#user'> carrying at least one <invite/>
+  | mucOther                          -- <x xmlns='…muc#user'> without an invite (decline, status)
+  deriving DecidableEq, Repr, Inhabited
+
+/-- the mediated invitation payloads of a message, wherever they stand among the children -/
+def invitationsIn (cs : List Child) : Nat := (cs.filter (· == .mucInvite)).length
+
 inductive LPc | idle | waiting
   deriving DecidableEq, Repr, Inhabited
 
@@ -72,7 +83,7 @@ inductive Act
   | avail (a : Nat)          -- available presence with a muc#user payload from occupant address `a`
   | unavail (a : Nat)        -- unavailable presence … from `a`
   | leaveStart (c : Nat) | leaveDepart (c : Nat) | leaveError (c : Nat) | leaveCancel (c : Nat)
-  | invite                   -- message carrying a mediated invitation
+  | message (children : List Child)  -- a message stanza with these children, in this order
   | unrelated                -- any stanza the MUC handlers are not registered for
   deriving DecidableEq, Repr
 
@@ -139,7 +150,7 @@ def step (s : St) : Act → Option St
   | .leaveCancel c => match s.lpc c with
     | .waiting => some { s with lpc := upd s.lpc c .idle, lastLeave := upd s.lastLeave c (some (.err .ctxErr)) }
     | _ => none
-  | .invite => some { s with invites := s.invites + 1 }
+  | .message cs => some { s with invites := s.invites + invitationsIn cs }
   | .unrelated => some s
 
 def run : St → List Act → Option St
